@@ -64,9 +64,9 @@ def tree_hash(cfgname):
     return h.hexdigest()[:32]
 
 
-def run_verus_cfg(cfgname, tier, seed, rlimit=None, use_cache=True):
+def run_verus_cfg(cfgname, tier, seed, rlimit=None, use_cache=True, canary=False):
     """Returns summary dict (see verusrun.summarize) + 'cache_hit'."""
-    key = tree_hash(cfgname) + ('-r%s' % rlimit if rlimit else '') + ('-s%d' % seed if rlimit else '')
+    key = tree_hash(cfgname) + ('-r%s' % rlimit if rlimit else '') + ('-s%d' % seed if rlimit else '') + ('-canary' if canary else '')
     cpath = os.path.join(CACHE, key + '.json')
     if use_cache and os.environ.get('VERIF_NOCACHE') != '1' and os.path.exists(cpath):
         try:
@@ -76,7 +76,7 @@ def run_verus_cfg(cfgname, tier, seed, rlimit=None, use_cache=True):
         except Exception:
             pass
     verusrun.check_dep_versions(REPO)
-    summ, lines = verusrun.build_and_run(REPO, cfgname, rlimit=rlimit, seed=seed if rlimit else None)
+    summ, lines = verusrun.build_and_run(REPO, cfgname, rlimit=rlimit, seed=seed if rlimit else None, canary=canary)
     summ['cache_hit'] = False
     summ['line_count'] = len(lines)
     # assumption scan over the generated file
@@ -202,7 +202,20 @@ def check(pid, tier, seed, update_expected=False):
                     failing.append({'kind': 'verus', 'id': oid, 'fn': name, 'cfg': cfgname,
                                     'detail': [{'msg': e['msg'], 'origin': e['origin'], 'src': e['src'],
                                                 'notes': [n for n in e['notes'] if n.get('text') or n.get('label')][:4]} for e in es][:8]})
-            verus_info[cfgname] = {'cmd': summ['cmd'], 'verified_total': summ['verified'], 'errors_total': summ['nerrors'],
+            # vacuity guard: the same extraction with `flag_f ==> false` added to every exec function's postconditions must
+            # FAIL for every function of this property (a function that still verifies has a contradictory precondition or
+            # an inconsistent assumption in scope)
+            try:
+                csumm = run_verus_cfg(cfgname, tier, seed, use_cache=(tier == 'quick'), canary=True)
+                cans = set(key_to_vname(k) for k in csumm['report'].get('canaries', []))
+                vac = [n for n in mine if n in cans and csumm['functions'].get(n, {}).get('success')]
+                if vac:
+                    deferred.append('vacuity guard: %s still verify with `false` added to their postconditions' % ', '.join(vac))
+                ncan = len([n for n in mine if n in cans])
+            except extract.Undecided as e:
+                deferred.append('vacuity pass: %s' % e)
+                ncan = 0
+            verus_info[cfgname] = {'vacuity_canaries_checked': ncan, 'cmd': summ['cmd'], 'verified_total': summ['verified'], 'errors_total': summ['nerrors'],
                                    'smt_ms': summ['smt_ms'], 'wall_s': round(summ['wall'], 2), 'cache_hit': summ['cache_hit'],
                                    'rewrite_counts': summ['counts'], 'assumption_scan': summ.get('assumption_scan'),
                                    'externals': summ['report'].get('externals')}
